@@ -233,3 +233,56 @@ func init() {
 		m["fmt.Sprintf"] = func(r *run, fr *frame, args []Value) Value { return r.sprintf(args[0], args[1]) }
 	})
 }
+
+// ---------- struct access by field name (library structs whose layout the models touch) ----------
+
+func (r *run) namedType(pkg, name string) types.Type {
+	p := r.eng.Prog.ImportedPackage(pkg)
+	if p == nil || p.Type(name) == nil {
+		panic(unsupported("type " + pkg + "." + name + " is not part of the loaded program"))
+	}
+	return p.Type(name).Type()
+}
+
+func fieldIndex(t types.Type, name string) int {
+	if p, ok := t.Underlying().(*types.Pointer); ok {
+		t = p.Elem()
+	}
+	st, ok := t.Underlying().(*types.Struct)
+	if !ok {
+		panic(unsupported("not a struct type: " + t.String()))
+	}
+	for i := 0; i < st.NumFields(); i++ {
+		if st.Field(i).Name() == name {
+			return i
+		}
+	}
+	panic(unsupported("no field " + name + " in " + t.String()))
+}
+
+// fieldOf returns the address of a named field of the struct p points to.
+func fieldOf(p Value, t types.Type, name string) *Value {
+	pv, ok := p.(*Value)
+	if !ok || pv == nil {
+		panic(unsupported("nil or non-pointer struct reference for field " + name))
+	}
+	return &(*pv).(Struct)[fieldIndex(t, name)]
+}
+
+func bytesValue(s string) []Value {
+	out := make([]Value, len(s))
+	for i := 0; i < len(s); i++ {
+		out[i] = term.Const(8, uint64(s[i]))
+	}
+	return out
+}
+
+// jsonPlain: the byte is one that encoding/json writes unescaped and reads back as itself.
+func jsonPlain(b *term.Term) *term.Term {
+	c := func(x byte) *term.Term { return term.Const(8, uint64(x)) }
+	return term.And(term.And(term.Ule(c(0x20), b), term.Ult(b, c(0x7f))),
+		term.And(term.And(term.Not(term.Eq(b, c('"'))), term.Not(term.Eq(b, c('\\')))),
+			term.And(term.Not(term.Eq(b, c('<'))), term.And(term.Not(term.Eq(b, c('>'))), term.Not(term.Eq(b, c('&')))))))
+}
+
+const jsonNote = "encoding/json: symbolic string bytes are assumed to be printable ASCII other than \" \\ < > & (written and read back unescaped)"
